@@ -33,15 +33,16 @@ def run(repo: Repo, chk: Check) -> None:
     chk.trusted = ["socket.recv_into returns 0 only at EOF and otherwise the number of bytes stored (>= 1)", "asyncio.StreamReader.readexactly returns exactly n bytes or raises IncompleteReadError"]
     world = World(repo)
     helpers = transport_reads(repo, chk, world)
+    helpers_seen = set(helpers)
     from sa.symeval import Unsupported
 
     for q in ("_rpc._client.SyncRpcClient._send_pdu", "_rpc._client.AsyncRpcClient._send_pdu"):
         try:
             reassembly(repo, chk, repo.func(q), helpers)
         except Unsupported as e:
-            if any(not o.ok and o.site.function == q for o in chk.obligations):
+            if any(not o.ok and (o.site.function == q or o.site.function in helpers_seen or o.site.function.startswith("_rpc._client.")) for o in chk.obligations):
                 chk.count("reassembly paths")
-                continue  # the transport-read rule already reported this function; its body left the idiom table
+                continue  # the transport-read rule already reported a read of this module; the body left the idiom table
             raise AnalysisError(f"{q} left the idiom table: {e}")
     chk.require_min("transport read sites", 3)
     chk.require_min("reassembly paths", 2)
@@ -63,6 +64,14 @@ def transport_reads(repo: Repo, chk: Check, world: World) -> t.Dict[str, str]:
     INLINE.clear()
     mod = repo.mod("_rpc._client")
     for f in [x for x in repo.funcs.values() if x.mod is mod]:
+        # a read method of the transport taken as a value (functools.partial(self._sock.recv, n), iter(.., b""), map ..) is a
+        # read whose result nobody here can follow: only direct calls in the certified forms below are complete reads
+        called = {id(n.func) for n in body_nodes(f.node) if isinstance(n, ast.Call)}
+        for n in body_nodes(f.node):
+            if isinstance(n, ast.Attribute) and id(n) not in called and isinstance(n.value, ast.Attribute) and isinstance(n.value.value, ast.Name) and n.value.value.id == "self" and n.value.attr in TRANSPORT_ATTRS and (n.attr in SHORT_READS or n.attr in EXACT_READS):
+                chk.analysed(f)
+                chk.count("transport read sites")
+                chk.ob("O1", Site.of(f, n), False, f"self.{n.value.attr}.{n.attr} is passed on as a value instead of being called: a read whose completeness (short reads, EOF) cannot be certified")
         for n in body_nodes(f.node):
             tc = _transport_call(n)
             if tc is None or (tc[1] not in SHORT_READS and tc[1] not in EXACT_READS):
@@ -110,6 +119,19 @@ def fill_exact(world: World, f: Func, call: ast.Call) -> str:
         # shape B: while off < len(v): n = recv_into(v[off:]); ...; off += n
         v, off = tgt.value.id, tgt.slice.lower.id
         off_name = off
+        # v[off:] must be a window of the caller's buffer: slicing a bytearray / bytes copies, recv_into would fill a temporary
+        kind_v = None
+        for a in f.node.args.posonlyargs + f.node.args.args + f.node.args.kwonlyargs:
+            if a.arg == v and a.annotation is not None:
+                kind_v = unparse(a.annotation)
+        if kind_v is None:
+            defs_v = [n.value for n in body_nodes(f.node) if isinstance(n, ast.Assign) and any(isinstance(x, ast.Name) and x.id == v for x in n.targets)]
+            withs_v = [i.context_expr for n in body_nodes(f.node) if isinstance(n, ast.With) for i in n.items if isinstance(i.optional_vars, ast.Name) and i.optional_vars.id == v]
+            srcs = defs_v + withs_v
+            if srcs and all(isinstance(x, ast.Call) and unparse(x.func) == "memoryview" or (isinstance(x, ast.Subscript) and isinstance(x.value, ast.Call) and unparse(x.value.func) == "memoryview") for x in srcs):
+                kind_v = "memoryview"
+        if kind_v is None or kind_v.rsplit(".", 1)[-1] != "memoryview":
+            return f"{name}({v}[{off}:]) with {v} declared as {kind_v or 'an untyped value'}: slicing anything but a memoryview copies, so the bytes read land in a temporary and {v} stays unfilled after the first short read"
         t_ = loop.test
         lenv = ast.copy_location(ast.Call(func=ast.Name(id="len", ctx=ast.Load()), args=[ast.Name(id=v, ctx=ast.Load())], keywords=[]), loop.test)
         want_len = {f"len({v})", prov_text(f, lenv, t_)}
